@@ -223,6 +223,8 @@ pub struct Log {
     pub cur_task: Cell<Task>,
     pub poll_seq: Cell<u32>,
     pub steps: Cell<u32>,
+    /// number of choice points consumed so far (maintained by the world)
+    pub choice_pos: Cell<u32>,
 }
 
 impl Log {
@@ -233,6 +235,7 @@ impl Log {
             cur_task: Cell::new(Task::None),
             poll_seq: Cell::new(0),
             steps: Cell::new(0),
+            choice_pos: Cell::new(0),
         })
     }
     pub fn push(&self, r: Rec) {
@@ -274,6 +277,9 @@ pub struct Fault {
     /// 1-based index of the call of `op` that fails
     pub k: u32,
     pub sticky: bool,
+    /// for Op::Next: report end-of-stream instead of an error
+    #[serde(default)]
+    pub eof: bool,
 }
 
 pub enum InItem<I> {
@@ -300,6 +306,8 @@ pub struct Core<I> {
     pub fault_fired: u32,
     pub spin_poll: u32,
     pub spin_count: u32,
+    /// (op, number of choice points consumed when the call was made) for every call
+    pub call_pos: Vec<(Op, u32)>,
     pub log: Rc<Log>,
 }
 
@@ -325,6 +333,7 @@ impl<I> Core<I> {
             fault_fired: 0,
             spin_poll: 0,
             spin_count: 0,
+            call_pos: Vec::new(),
             log,
         }
     }
@@ -341,6 +350,7 @@ impl<I> Core<I> {
     fn faulty(&mut self, op: Op) -> bool {
         let idx = OPS.iter().position(|o| *o == op).unwrap();
         self.counts[idx] += 1;
+        self.call_pos.push((op, self.log.choice_pos.get()));
         if let Some(f) = self.fault {
             if f.op == op && (self.counts[idx] == f.k || (f.sticky && self.counts[idx] > f.k)) {
                 self.fault_fired += 1;
@@ -414,6 +424,13 @@ impl<S, I: ToMsg> Stream for MockTransport<S, I> {
     fn poll_next(self: Pin<&mut Self>, cx: &mut Context<'_>) -> Poll<Option<Self::Item>> {
         let mut c = self.core.borrow_mut();
         if c.faulty(Op::Next) {
+            if c.fault.map(|f| f.eof).unwrap_or(false) {
+                c.eof_read = true;
+                c.inbox.clear();
+                c.inbox.push_front(InItem::Eof);
+                c.rec(Op::Next, Res::Eof, None);
+                return Poll::Ready(None);
+            }
             c.rec(Op::Next, Res::Err, None);
             return Poll::Ready(Some(Err(mkerr("poll_next"))));
         }
